@@ -64,7 +64,7 @@ fn g2() -> G2 {
     G2::one()
 }
 
-pub const N_OPS: usize = 18;
+pub const N_OPS: usize = 19;
 pub const OP_NAMES: [&str; N_OPS] = [
     "G1 add/double/negate chain",
     "G1 mul_assign",
@@ -84,6 +84,7 @@ pub const OP_NAMES: [&str; N_OPS] = [
     "Fq sqrt, Fq2 sqrt, Fq12 inverse",
     "G1 sum_of_products rejecting a scalar >= 2^255 (the call panics; the panic is caught)",
     "hash_to_field beyond the 255-block limit (the call aborts; the panic is caught)",
+    "checked decoding of REJECTED encodings (compressed G2 and G1 curve points outside the subgroup)",
 ];
 /// one operation instance on fixed operands; returns its bit-level output
 pub fn run_op(i: usize) -> Vec<u8> {
@@ -225,6 +226,57 @@ pub fn run_op(i: usize) -> Vec<u8> {
                 Ok(p) => raw_g1(&p),
                 Err(_) => b"PANICKED".to_vec(),
             }
+        }
+        18 => {
+            // the first x = k (k = 1, 2, ...) over which the curve has a point: such a point is outside the subgroup (the
+            // verdict is part of the output, whatever it is); chosen by field arithmetic, not by calling a decoder
+            let mut out = vec![];
+            let mut k2 = 1u64;
+            let x2 = loop {
+                let x = Fq2 { c0: Fq::from_repr(fqrepr(&BigUint::from(k2))).unwrap(), c1: Fq::zero() };
+                let mut rhs = x;
+                rhs.square();
+                rhs.mul_assign(&x);
+                let four = Fq::from_repr(fqrepr(&BigUint::from(4u32))).unwrap();
+                rhs.add_assign(&Fq2 { c0: four, c1: four });
+                if rhs.sqrt().is_some() {
+                    break k2;
+                }
+                k2 += 1;
+            };
+            let mut e2 = pairing_plus::bls12_381::G2Compressed::empty();
+            e2.as_mut()[0] = 0x80;
+            e2.as_mut()[95] = x2 as u8;
+            match e2.into_affine() {
+                Ok(a) => {
+                    out.extend_from_slice(b"OK");
+                    out.extend(raw_g2(&a.into_projective()));
+                }
+                Err(e) => out.extend_from_slice(format!("ERR {:?};", e).as_bytes()),
+            }
+            let mut k1 = 1u64;
+            let x1 = loop {
+                let x = Fq::from_repr(fqrepr(&BigUint::from(k1))).unwrap();
+                let mut rhs = x;
+                rhs.square();
+                rhs.mul_assign(&x);
+                rhs.add_assign(&Fq::from_repr(fqrepr(&BigUint::from(4u32))).unwrap());
+                if rhs.sqrt().is_some() {
+                    break k1;
+                }
+                k1 += 1;
+            };
+            let mut e1 = G1Compressed::empty();
+            e1.as_mut()[0] = 0x80;
+            e1.as_mut()[47] = x1 as u8;
+            match e1.into_affine() {
+                Ok(a) => {
+                    out.extend_from_slice(b"OK");
+                    out.extend(raw_g1(&a.into_projective()));
+                }
+                Err(e) => out.extend_from_slice(format!("ERR {:?};", e).as_bytes()),
+            }
+            out
         }
         17 => {
             let r = std::panic::catch_unwind(|| pairing_plus::hash_to_field::hash_to_field::<Fq, ExpandMsgXmd<sha2::Sha256>>(b"msg", b"dst", 200));
@@ -536,7 +588,7 @@ fn histories(ctx: &Ctx, base: &[Vec<u8>]) {
     // single-threaded on purpose: the verdict must not depend on which other histories run concurrently
     let inj = ctx.injecting("C20");
     let full: Vec<usize> = (0..N_OPS).collect();
-    let cheap: Vec<usize> = vec![0, 1, 3, 4, 6, 7, 8, 11, 12, 16, 17];
+    let cheap: Vec<usize> = vec![0, 1, 3, 4, 6, 7, 8, 11, 12, 16, 17, 18];
     let plans: Vec<(usize, &Vec<usize>)> = if ctx.quick() { vec![(1, &full), (2, &full), (3, &cheap)] } else { vec![(1, &full), (2, &full), (3, &full), (4, &cheap)] };
     for (len, alpha) in plans {
         let sub = format!("histories.len{}", len);
